@@ -16,8 +16,8 @@ ID = "C15"
 CASES = {"quick": 4000, "thorough": 60000}
 FLOOR = {"quick": 3600, "thorough": 55000}
 FLOOR_COUNTERS = {
-    "quick": {"all_points_inside_one_cell": 1200, "large_unit_precisions": 250, "image_shift_pairs": 3500, "half_cell_pairs": 600, "mahalanobis_calls": 3500, "triangle_triples": 3500, "tight_clouds_far_from_origin": 500, "cell_objects_edited_in_place": 3500, "mixed_layout_calls": 2500, "integer_typed_precisions": 300, "more_than_65536_pairs": 30},
-    "thorough": {"all_points_inside_one_cell": 18000, "large_unit_precisions": 4000, "image_shift_pairs": 55000, "half_cell_pairs": 9000, "mahalanobis_calls": 55000, "triangle_triples": 55000, "tight_clouds_far_from_origin": 8000, "cell_objects_edited_in_place": 55000, "mixed_layout_calls": 40000, "integer_typed_precisions": 5000, "more_than_65536_pairs": 500},
+    "quick": {"all_points_inside_one_cell": 1200, "large_unit_precisions": 250, "image_shift_pairs": 3500, "half_cell_pairs": 600, "mahalanobis_calls": 3500, "triangle_triples": 3500, "tight_clouds_far_from_origin": 500, "cell_objects_edited_in_place": 3500, "mixed_layout_calls": 2500, "integer_typed_precisions": 300, "more_than_65536_pairs": 30, "numpy_bool_flags": 800, "rejected_calls_in_the_history": 2000},
+    "thorough": {"all_points_inside_one_cell": 18000, "large_unit_precisions": 4000, "image_shift_pairs": 55000, "half_cell_pairs": 9000, "mahalanobis_calls": 55000, "triangle_triples": 55000, "tight_clouds_far_from_origin": 8000, "cell_objects_edited_in_place": 55000, "mixed_layout_calls": 40000, "integer_typed_precisions": 5000, "more_than_65536_pairs": 500, "numpy_bool_flags": 12000, "rejected_calls_in_the_history": 30000},
 }
 RULE = (
     "case = point sets X, Y in 1-6 dimensions with coordinates up to +-50 cells, positive rectangular cell (anisotropy up "
@@ -79,6 +79,8 @@ def gen(rng, tier, index):
         "P": P,
         "half": half,
         "pint": pint,
+        "npflags": bool(rng.random() < 0.3),
+        "reject": bool(rng.random() < 0.4),
         "cell_edit": float(gens.pick(rng, (1.37, 0.61, 2.0, 1.001))),
         "cell_as_list": bool(rng.random() < 0.5),
         "layouts": [gens.pick(rng, ("C", "F", "strided", "readonly", "list")) for _ in range(2)],
@@ -132,7 +134,11 @@ def run(case, j):
     j.ok("triangle inequality", bool(np.all(D <= via + tol)), float((D - via).max()))
     j.note("triangle_triples")
     # squared, no cell
-    j.close("squared=True is the square", np.asarray(ped(X, Y, cell_length=cell, squared=True)), D**2, tol * (diag + 1e-300) + 1e-9 * (D**2).max())
+    sq_true = np.bool_(True) if case.get("npflags") else True  # a flag that comes out of a NumPy comparison
+    if case.get("npflags"):
+        j.note("numpy_bool_flags")
+        j.close("squared=np.False_ is not the square", np.asarray(ped(X, Y, cell_length=cell, squared=np.bool_(False))), D, tol)
+    j.close("squared=True is the square", np.asarray(ped(X, Y, cell_length=cell, squared=sq_true)), D**2, tol * (diag + 1e-300) + 1e-9 * (D**2).max())
     j.close("without a cell == sklearn euclidean_distances", np.asarray(ped(X, Y)), Dfree, 1e-9 * max(float(Dfree.max()), big))
     # minimum image written out per coordinate
     diff = X[:, None, :] - Y[None, :, :]
@@ -144,6 +150,12 @@ def run(case, j):
     M1 = np.asarray(mah(X, Y, I, cell_length=cell))
     j.ok("Mahalanobis result has a leading axis per precision matrix", M1.shape == (1, len(X), len(Y)), M1.shape)
     j.close("identity precision == periodic Euclidean distance", M1[0], D, tol)
+    if case.get("reject"):
+        # a failure in the history: a periodic call that is refused in the middle of the computation (a precision of the wrong
+        # size) or at validation (cell of the wrong dimension); the free-space calls that follow know nothing of that cell
+        forms.rejected(j, "periodic Mahalanobis call with a precision of the wrong size", mah, X, Y, np.eye(d + 1), cell_length=cell)
+        forms.rejected(j, "periodic call with a cell of the wrong dimension", ped, X, Y, cell_length=np.ones(d + 1))
+        j.close("free-space distances after a refused periodic call == sklearn euclidean_distances", np.asarray(ped(X, Y)), Dfree, 1e-9 * max(float(Dfree.max()), big))
     L = np.linalg.cholesky(np.asarray(P[0], dtype=float))
     Mw = np.asarray(mah(X, Y, P[0]))[0]
     # whitened separations computed from the pair differences (exact subtraction of nearby numbers), not from the
@@ -163,7 +175,7 @@ def run(case, j):
     for i in range(len(P)):
         Mi = np.asarray(mah(X, Y, P[i], cell_length=cell))[0]
         j.close("each matrix of a precision stack is treated independently", Ms[i], Mi, 1e-12 * max(float(np.abs(Mi).max()), 1e-300))
-    j.close("Mahalanobis squared=True is the square", np.asarray(mah(X, Y, P, cell_length=cell, squared=True)), Ms**2, 1e-9 * max(float((Ms**2).max()), 1e-300))
+    j.close("Mahalanobis squared=True is the square", np.asarray(mah(X, Y, P, cell_length=cell, squared=sq_true)), Ms**2, 1e-9 * max(float((Ms**2).max()), 1e-300))
     Msh = np.asarray(mah(Xs, Ys, P, cell_length=cell))
     j.close("Mahalanobis unchanged by integer image shifts", Msh, Ms, 1e-8 * max(float(Ms.max()), 1e-300) * (1 + big / (cell.min() + 1e-300)) * 1e-3 + 1e-7 * max(float(Ms.max()), 1e-300) + (np.inf if case["half"] else 0.0))
     j.note("mahalanobis_calls")
